@@ -114,6 +114,9 @@ def templates(tier="quick"):
     v = Variant("v0", [Stmt("lib", ex=["a.o", "b.o"], rsp=("lib.rsp", "a.o b.o")), Stmt("exe", ex=["lib"])])
     v1 = Variant("v1", [Stmt("lib", ex=["a.o", "b.o"], rsp=("lib.rsp", "a.o b.o --extra")), Stmt("exe", ex=["lib"])])
     T += _mk("rspfile", [v, v1], tags=["rspfile"], depth=d)
+    # ... and an interrupt while the command that reads the response file runs: it has not succeeded, the file stays
+    T[-1]["ops"].append(ninja_op(j=2, interrupt=True))
+    T[-2]["ops"].append(ninja_op(j=2, interrupt=True))
     # T13b response file whose declared content is empty (and becomes empty after having been non-empty)
     v2 = Variant("v2", [Stmt("lib", ex=["a.o", "b.o"], rsp=("lib.rsp", "")), Stmt("exe", ex=["lib"])])
     T += _mk("rspfile_empty", [v2, v], tags=["rspfile"], depth=d)
